@@ -215,7 +215,7 @@ Print Assumptions C02_string_operand.
 Theorem C02_for_step : forall c step stop sgn, in16 c -> in16 step -> in16 stop ->
   for_step (enc c) (enc step) (enc stop) sgn =
     if in16b (c + step)
-    then Ok (enc (c + step), if sgn >? 0 then c + step >? stop else stop >? c + step)
+    then Ok (enc (c + step), if sgn >=? 0 then c + step >? stop else stop >? c + step)
     else Err 6.
 Proof.
   intros c s st sgn Hc Hs Hst.
